@@ -140,6 +140,8 @@ MUTANTS = [
     ("c08-insort-before-equal-ticks", "C08", "scoda/misc/util.py", "if message.time < collection[mid].time:", "if message.time <= collection[mid].time:", {"BISECT"}),
     ("c18-created-marker-channel-never-inferred", "C18", REL, "            if default_channel is None and msg.channel is not None:\n                default_channel = msg.channel\n\n            if msg.message_type == MessageType.WAIT:\n                current_point_in_time += msg.time", "            if default_channel is not None and msg.channel is not None:\n                default_channel = msg.channel\n\n            if msg.message_type == MessageType.WAIT:\n                current_point_in_time += msg.time", {"DEFCHAN"}),
     ("c10-identity-between-durations", "C10", ABS, "self_msg_value != other_msg_value", "self_msg_value is not other_msg_value", {"IDENT", "EQ1"}),
+    ("c04-order-table-misses-a-kind", "C04", ENUM, "    def __lt__(self, other):\n        values = [e for e in MessageType]\n        return values.index(self) < values.index(other)",
+     "    def __lt__(self, other):\n        return _POS.index(self) < _POS.index(other)\n\n\n_POS = [MessageType.INTERNAL, MessageType.KEY_SIGNATURE, MessageType.TIME_SIGNATURE, MessageType.CONTROL_CHANGE,\n        MessageType.PROGRAM_CHANGE, MessageType.NOTE_OFF, MessageType.NOTE_ON, MessageType.WAIT]", {"ABS-SORTED"}),
     ("c09-alias-input", "C09", SEQ, "sequences = [sequence for sequence in sequences_input]", "sequences = sequences_input", {"PURE"}),
     ("c09-half-length", "C09", SEQ, "length_bar = int(PPQN * (current_ts_numerator / (current_ts_denominator / 4)))", "length_bar = int(PPQN * (current_ts_numerator / (current_ts_denominator / 2)))", {"LEN"}),
     ("c09-swapped-sig", "C09", SEQ, "Bar(sequence_to_add, current_ts_numerator, current_ts_denominator,", "Bar(sequence_to_add, current_ts_denominator, current_ts_numerator,", {"SIG"}),
@@ -318,6 +320,15 @@ EQUIVALENTS = [
     ("split-capacities-as-list", ("C08", "C09"), [(REL,
       "        split_sequences = []\n        working_memory = [msg.copy() for msg in self._messages]",
       "        capacities = list(capacities)\n        split_sequences = []\n        working_memory = [msg.copy() for msg in self._messages]")]),
+    ("load-defaults-by-range", ("C13", "C12"), [(SEQ,
+      "            track_indices = [[i] for i, _ in enumerate(midi_file.tracks)]",
+      "            track_indices = [[i] for i in range(len(midi_file.tracks))]"),
+      (SEQ, "            meta_track_indices = [i for i, _ in enumerate(midi_file.tracks)]",
+      "            meta_track_indices = list(range(len(midi_file.tracks)))")]),
+    ("eq-by-operator", ("C17", "C10", "C16"), [(SEQ, "        return self.abs.__eq__(o.abs)", "        return self.abs == o.abs")]),
+    ("message-type-order-by-table", ("C15", "C04", "C12", "C13"), [(ENUM,
+      "    def __lt__(self, other):\n        values = [e for e in MessageType]\n        return values.index(self) < values.index(other)",
+      "    def __lt__(self, other):\n        return _SORT_POSITIONS[self] < _SORT_POSITIONS[other]\n\n\n_SORT_POSITIONS = {message_type: position for position, message_type in enumerate([\n    MessageType.INTERNAL,\n    MessageType.SEQUENCE_CONTROL,\n    MessageType.KEY_SIGNATURE,\n    MessageType.TIME_SIGNATURE,\n    MessageType.CONTROL_CHANGE,\n    MessageType.PROGRAM_CHANGE,\n    MessageType.NOTE_OFF,\n    MessageType.NOTE_ON,\n    MessageType.WAIT,\n])}")]),
     ("transpose-shift-helper", ("C14",), [(REL,
       "                msg.note += transpose_by\n                while msg.note < NOTE_LOWER_BOUND:\n                    had_to_shift = True\n                    msg.note += 12\n                while msg.note > NOTE_UPPER_BOUND:\n                    had_to_shift = True\n                    msg.note -= 12\n",
       "                if RelativeSequence._shift_note(msg, transpose_by):\n                    had_to_shift = True\n"),
